@@ -32,8 +32,8 @@ impl GcEngine {
     pub fn for_prop(prop: &'static str) -> Self {
         use Profile::*;
         let profiles = match prop {
-            "C01" => vec![GcOrders, GcOrders, Readd, Overwrite, Forest, Alloc],
-            "C02" => vec![GcOrders, GcOrders, Overwrite, Readd, Limit, Limit],
+            "C01" => vec![GcOrders, GcOrders, Readd, Overwrite, Forest, Alloc, ManyGroups],
+            "C02" => vec![GcOrders, GcOrders, Overwrite, Readd, Limit, Limit, ManyGroups],
             "C03" => vec![Overwrite, Overwrite, GcOrders, Readd, Queries],
             "C04" => vec![Readd, Readd, Readd, Readd, GcOrders],
             "C05" => vec![Alloc, Alloc, Alloc, Forest],
